@@ -329,6 +329,20 @@ DenseSymmetricMatrixPair construct_lltsa_eigenproblem(SparseWeightMatrix W, Rand
         }
     }
 
+    // The alignment matrix annihilates constants only up to the nullspace shift (W 1 = shift 1): it has to
+    // act on the centred features, X H W H X^T with H = I - 1 1^T / N, otherwise shift * N * mean * mean^T
+    // leaks into the problem and the embedding depends on where the origin of the feature space is
+    const ScalarType n_samples = static_cast<ScalarType>(end - begin);
+    const DenseVector w_ones = W * DenseVector::Ones(end - begin);
+    DenseVector weighted_sum = DenseVector::Zero(dimension);
+    for (RandomAccessIterator iter = begin; iter != end; ++iter)
+    {
+        feature_vector_callback.vector(*iter, rank_update_vector_i);
+        weighted_sum += w_ones(iter - begin) * rank_update_vector_i;
+    }
+    lhs.selfadjointView<Eigen::Upper>().rankUpdate(weighted_sum, sum, -2.0 / n_samples);
+    lhs.selfadjointView<Eigen::Upper>().rankUpdate(sum, 2.0 * w_ones.sum() / (n_samples * n_samples));
+
     // only the upper triangles have been accumulated: mirror them, the eigensolver reads the lower ones
     lhs = DenseSymmetricMatrix(lhs.selfadjointView<Eigen::Upper>());
     rhs = DenseSymmetricMatrix(rhs.selfadjointView<Eigen::Upper>());
